@@ -281,3 +281,42 @@ Definition obs_no_request_stranded (tr : list rev) : bool :=
     requestor's sink has been flushed to it (unless that sink failed) *)
 Definition obs_rr_flushed_at_completion (tr : list rev) : bool :=
   negb (rcompleted tr) || forallb (fun l => sink_errored l tr || negb (obs_dirty_r l tr)) (client_labels tr).
+
+(** end of a drained history of a live router with a live replier bound: the replier's stream and
+    every requestor stream that was polled at all gave Pending (or ended / failed) as its LAST answer:
+    the router does not park right after a stream handed it a frame (a request, a reply, or a frame it
+    ignores) without asking that stream again *)
+Definition last_rstream_answer (l : N) (tr : list rev) : option fresp :=
+  fold_left (fun acc e => match e with VStream l' r => if l =? l' then Some r else acc | _ => acc end) tr None.
+Definition polled_rstreams (tr : list rev) : list N :=
+  nodup N.eq_dec (flat_map (fun e => match e with VStream l _ => [l] | _ => [] end) tr).
+Definition obs_rstreams_polled_to_pending (tr : list rev) : bool :=
+  negb (live_replier tr)
+  || forallb (fun l => told l tr || sink_broken l tr ||
+                       match last_rstream_answer l tr with
+                       | Some (FItem _) => false
+                       | _ => true
+                       end) (polled_rstreams tr).
+
+(** every poll that returns Pending for another reason than a sink having just answered Pending
+    (that is, the router parks on its streams and the registration channel) has asked every stream
+    it polled in that poll until the stream answered Pending (or ended): a stream that handed over a
+    frame -- a request, a reply, or a frame the router ignores -- is asked again before parking,
+    otherwise the router holds no waker of it (a replier whose sink failed in that poll is unbound and its
+    stream dropped: exempt) *)
+Fixpoint split_rpolls (tr : list rev) (cur : option (list rev)) : list (list rev) :=
+  match tr with
+  | [] => []
+  | VBegin :: r => split_rpolls r (Some [])
+  | VEnd false :: r => (match cur with Some c => [List.rev c] | None => [] end) ++ split_rpolls r None
+  | VEnd true :: r => split_rpolls r None
+  | e :: r => split_rpolls r (option_map (cons e) cur)
+  end.
+Definition rseg_repolled (seg : list rev) : bool :=
+  match List.rev seg with
+  | VSink _ _ RPending :: _ => true
+  | _ => forallb (fun l => sink_broken l seg || sink_errored l seg ||
+                          match last_rstream_answer l seg with Some (FItem _) => false | _ => true end)
+                 (polled_rstreams seg)
+  end.
+Definition obs_rr_repoll_ok (tr : list rev) : bool := forallb rseg_repolled (split_rpolls tr None).
